@@ -2,6 +2,8 @@ import XsgModel.Props.C01
 import XsgModel.Props.C04
 import XsgModel.Props.C11
 import XsgModel.Model.De
+import XsgModel.Proofs.DeserOk
+import XsgModel.Proofs.DeserScope
 /-!
 # C02 — generated code compiles and quick_xml::de deserializes the source documents  (PARTIAL)
 
@@ -55,5 +57,100 @@ theorem C02_bindings (im : IdentMap) (a : Nec × Name) (hints) (names') (path tr
     (textField Options.quickXmlDe im).rename = some (cl!"$text") ∧
     ((childField hints names' im path trace c).rename.getD (childField hints names' im path trace c).ident) = removeNamespace c.2.name :=
   ⟨(C01_attr_field _ im a).2.2.2, rfl, (C01_child_field hints names' im path trace c).2.2.1⟩
+
+/-! ### with the model of `quick_xml::de` (`Model/Deser.lean`) -/
+
+theorem head_of_head? {α : Type} {l : List α} {a : α} (h : l.head? = some a) : ∃ r, l = a :: r := by
+  cases l with
+  | nil => cases h
+  | cons b r => simp only [List.head?_cons, Option.some.injEq] at h; exact ⟨r, by rw [h]⟩
+
+/-- **C02, deserialization** (relative to the deserializer model, which the compile-and-run correspondence
+ties to the real crate): for every history of well-formed documents *with their values*, if no two attribute
+names and no two child names of one position clash after prefix removal (`keysOK`), then `from_str` into the
+first rendered struct — plain and with `deny_unknown_fields` on every struct — succeeds on every source
+document that is inside the model (no mixed content, no `xsi:nil`), and the non-empty strings of the value are
+exactly (as a multiset) the attribute values and character data of the document: nothing is dropped, nothing is
+invented.  (An element without content read as `String` contributes `""`, hence "non-empty".) -/
+theorem C02_deserializes (H : List VDoc) (h : historyOk (H.map VDoc.erase)) :
+    ∃ t, parseHistory ((H.map VDoc.erase).map Doc.events) = .ok t ∧
+      (t.keysOK = true → ∀ deny : Bool, ∀ d ∈ H, d.root.inModel DeCfg.quickXml = true →
+        ∃ v, deDoc DeCfg.quickXml ((renderAST Options.quickXmlDe t).map StructDef.plain) deny d.root = .ok v ∧
+          (ne v.strings).Perm (ne (d.root.values DeCfg.quickXml))) := by
+  obtain ⟨t, ht, hadm⟩ := C01_sound _ h
+  refine ⟨t, ht, ?_⟩
+  intro hkeys deny d hd hmodel
+  have hinv := C11_parsed_inv _ t ht
+  have hdm : d.erase ∈ H.map VDoc.erase := List.mem_map_of_mem hd
+  have hok : d.root.erase.ok = true := by
+    have := h.2.1 d.erase hdm
+    simp only [Doc.ok, VDoc.erase, Bool.and_eq_true] at this
+    exact this.1.2
+  obtain ⟨r, hr⟩ := head_of_head? (walk_head oQ.sort t)
+  have hen : (⟨[t.name], [pascal t.name], t⟩ : Entry) ∈ walk oQ.sort [] [] t := by rw [hr]; simp
+  obtain ⟨v, hv, hp⟩ := deNode_ok t hinv deny d.root ⟨[t.name], [pascal t.name], t⟩ hen hkeys hinv (hadm d.erase hdm) hok hmodel
+  refine ⟨v, ?_, hp⟩
+  have hp : (renderAST oQ t).map StructDef.plain
+      = (structOf oQ (hintOf (fillNames [] t)) (structNames (hintOf (fillNames [] t)) t) ⟨[t.name], [pascal t.name], t⟩).plain
+        :: (r.map (structOf oQ (hintOf (fillNames [] t)) (structNames (hintOf (fillNames [] t)) t))).map StructDef.plain := by
+    simp only [renderAST, renderWith, hr, List.map_cons]
+  show deDoc cQ ((renderAST oQ t).map StructDef.plain) deny d.root = .ok v
+  rw [hp] at hv ⊢
+  exact hv
+
+/-- **C02 with the side condition stated on the documents**: `specOfDocs` is the executable schema of the
+history (C03); `keysOK` of it says that at every position the attribute names, and the child names, stay
+distinct when namespace prefixes are removed. -/
+theorem C02_holds (H : List VDoc) (h : historyOk (H.map VDoc.erase))
+    (hk : (specOfDocs ((H.map VDoc.erase).map (·.root))).keysOK = true) :
+    ∃ t, parseHistory ((H.map VDoc.erase).map Doc.events) = .ok t ∧
+      ∀ deny : Bool, ∀ d ∈ H, d.root.inModel DeCfg.quickXml = true →
+        ∃ v, deDoc DeCfg.quickXml ((renderAST Options.quickXmlDe t).map StructDef.plain) deny d.root = .ok v ∧
+          (ne v.strings).Perm (ne (d.root.values DeCfg.quickXml)) := by
+  obtain ⟨t, ht, hmain⟩ := C02_deserializes H h
+  obtain ⟨t', ht', habs⟩ := C03_spec_exact _ h
+  have : t' = t := by rw [ht] at ht'; exact (Except.ok.inj ht').symm
+  subst this
+  refine ⟨t', ht, hmain ?_⟩
+  rw [← abs_keysOK, habs]
+  exact hk
+
+namespace C02Example
+/-- `<r a="1"><e k="v"> hi </e><e k="w"/><g/></r>` -/
+def d1 : VDoc := ⟨.nil, .mk (cl!"r") [(cl!"a", cl!"1")] false
+  (.elem (.mk (cl!"e") [(cl!"k", cl!"v")] false (.text false (cl!" hi ") .nil))
+  (.elem (.mk (cl!"e") [(cl!"k", cl!"w")] true .nil)
+  (.elem (.mk (cl!"g") [] true .nil) .nil))), .nil⟩
+/-- `<r><f>t</f><!-- c --></r>` -/
+def d2 : VDoc := ⟨.nil, .mk (cl!"r") [] false
+  (.elem (.mk (cl!"f") [] false (.text false (cl!"t") .nil)) (.other false .nil)), .nil⟩
+def H : List VDoc := [d1, d2]
+
+theorem ok : historyOk (H.map VDoc.erase) := by
+  refine ⟨by simp [H], ?_, ?_⟩
+  · intro d hd
+    simp only [H, List.map_cons, List.map_nil, List.mem_cons, List.mem_nil_iff, or_false] at hd
+    rcases hd with rfl | rfl <;> decide
+  · intro d hd d' hd'
+    simp only [H, List.map_cons, List.map_nil, List.mem_cons, List.mem_nil_iff, or_false] at hd hd'
+    rcases hd with rfl | rfl <;> rcases hd' with rfl | rfl <;> rfl
+
+theorem keys : (specOfDocs ((H.map VDoc.erase).map (·.root))).keysOK = true := by decide +kernel
+theorem inside : ∀ d ∈ H, d.root.inModel DeCfg.quickXml = true := by decide +kernel
+
+/-- non-vacuity: the hypotheses of `C02_holds` are satisfiable, by a history with attributes, text, a repeated
+child, an optional child and an empty element -/
+example : ∃ t, parseHistory ((H.map VDoc.erase).map Doc.events) = .ok t ∧
+    ∀ deny : Bool, ∀ d ∈ H, d.root.inModel DeCfg.quickXml = true →
+      ∃ v, deDoc DeCfg.quickXml ((renderAST Options.quickXmlDe t).map StructDef.plain) deny d.root = .ok v ∧
+        (ne v.strings).Perm (ne (d.root.values DeCfg.quickXml)) := C02_holds H ok keys
+end C02Example
+
+/-- the program the theorem speaks about is the one read back from the rendered text (C04) -/
+theorem C02_program_is_the_text (t : Elem)
+    (hen : ∀ en ∈ walk Options.quickXmlDe.sort [] [] t, nameOK en.elem.name = true ∧ (∀ a ∈ en.elem.attrs, nameOK a.2 = true) ∧
+      (∀ c ∈ en.elem.children, nameOK c.2.name = true) ∧ (names en.elem.attrs).Nodup ∧ (childNames en.elem.children).Nodup) :
+    readProgram (toSerdeStruct Options.quickXmlDe t) = some ((renderAST Options.quickXmlDe t).map StructDef.plain) :=
+  C04_text_reads_back _ t (by unfold NoNL; decide) hen
 
 end Xsg
